@@ -44,7 +44,7 @@ func (b *c22Blk) Contains(id ids.ID) bool {
 	return false
 }
 
-func c22mk(parent *c22Blk, ts int64, salt byte, forged bool) *c22Blk {
+func c22mk(parent *c22Blk, ts int64, salt byte, forged bool, life int64) *c22Blk {
 	b := &c22Blk{ts: ts, forged: forged}
 	if parent != nil {
 		b.parent = parent.id
@@ -52,7 +52,7 @@ func c22mk(parent *c22Blk, ts int64, salt byte, forged bool) *c22Blk {
 	}
 	b.bytes = append(append([]byte{}, b.parent[:]...), byte(b.h), salt, byte(ts), byte(ts>>8))
 	b.id = utils.ToID(b.bytes)
-	b.txs = []c22Tx{{id: utils.ToID(append([]byte{0xee}, b.bytes...)), expiry: ts + 5}}
+	b.txs = []c22Tx{{id: utils.ToID(append([]byte{0xee}, b.bytes...)), expiry: ts + life}}
 	return b
 }
 
@@ -170,22 +170,34 @@ func (w *c22World) FetchBlocksFromPeer(ctx context.Context, _ ids.NodeID, req *B
 // VerifC22: a state-synced node holds only the newest `local` blocks of a 6-block chain; Syncer.Start(target) backfills
 // the replay-protection window from a peer that misbehaves up to `badAnswers` times; optionally the next block is
 // accepted (UpdateSyncTarget) while the backfill runs.
-func VerifC22() {
+func VerifC22() { c22Run(false) }
+
+// VerifC22Cancel: the context handed to Syncer.Start is cancelled while the backfill runs (honest peer, no Close, no
+// new target). The backfill may then never complete — but if the syncer reports completion (its done signal, which is
+// what Wait returns nil on), the tracked set must still be the complete ancestry back past the validity window.
+func VerifC22Cancel() { c22Run(true) }
+
+func c22Run(cancelMode bool) {
 	ctx := context.Background()
 	w := &c22World{}
 	// genesis is old (as in hypersdk, whose genesis header timestamp lies years before any real block)
 	tss := [c22Len]int64{0, 1000, 1010, 1020, 1030, 1040, 1050}
+	window := []int64{15, 25, 35, 45}[verifChoose("validityWindow", verifParam("windows", 3, 4))]
+	// transactions live for the whole validity window (the longest expiry valid at inclusion), so that an ancestor
+	// transaction inside the window has not expired at the target and must be tracked
 	var prev *c22Blk
 	for h := 0; h < c22Len; h++ {
-		w.chain[h] = c22mk(prev, tss[h], 1, false)
+		w.chain[h] = c22mk(prev, tss[h], 1, false, window)
 		if h >= 1 {
-			w.forged[h] = c22mk(prev, tss[h], 2, true)
+			w.forged[h] = c22mk(prev, tss[h], 2, true, window)
 		}
 		prev = w.chain[h]
 	}
-	window := []int64{15, 25, 35, 45}[verifChoose("validityWindow", verifParam("windows", 3, 4))]
 	w.local = 5 - verifChoose("localBlocks", 2) // the node has the target only, or the target and its parent
 	w.badLeft = verifParam("badAnswers", 2, 3)
+	if cancelMode {
+		w.badLeft = 0
+	}
 	getWindow := func(int64) int64 { return window }
 	target := w.chain[5]
 	tw, err := NewTimeValidityWindow[c22Tx](ctx, logging.NoLog{}, trace.Noop, w, target, getWindow)
@@ -194,11 +206,29 @@ func VerifC22() {
 	}
 	client := NewBlockFetcherClient[*c22Blk](w, w, w)
 	s := NewSyncer[c22Tx, *c22Blk](w, tw, client, getWindow)
-	if err := s.Start(ctx, target); err != nil {
+	startCtx, cancelStart := context.WithCancel(ctx)
+	if err := s.Start(startCtx, target); err != nil {
 		verifFail("syncer-start-error")
 	}
 	newest := target
-	if verifChoose("acceptNextWhileBackfilling", 2) == 1 {
+	if cancelMode {
+		for i, k := 0, verifChoose("yieldsBeforeCancel", 4); i < k; i++ {
+			verifYield()
+		}
+		cancelStart()
+		for i := 0; i < 6; i++ {
+			verifYield()
+		}
+		select {
+		case <-s.doneChan:
+			verifReach("done-reported-after-cancel")
+		default:
+			// not complete: nothing is claimed by the syncer, nothing to check
+			verifReach("cancelled-incomplete")
+			verifReach("end")
+			return
+		}
+	} else if verifChoose("acceptNextWhileBackfilling", 2) == 1 {
 		if err := s.UpdateSyncTarget(ctx, w.chain[6]); err != nil {
 			verifFail("update-sync-target-error")
 		}
@@ -209,6 +239,7 @@ func VerifC22() {
 		verifFail("backfill-failed")
 	}
 	verifReach("backfill-done")
+	_ = cancelStart
 
 	// (1) every recorded block is the next hash-linked ancestor
 	w.mu.Lock()
